@@ -351,6 +351,11 @@ def observe(s, q, aq, rng, missing, topks=(2, 3, 5)):
             obs.append({"kind": "filteredlen", "path": "len(search(filter=%s mask=%s limit=%d))" % (hasf, hasm, k),
                         "hasfilt": hasf, "hasmask": hasm, "filt": afilt, "mask": amask, "k": k,
                         "n": len(s.search(q, limit=k or None, **kw)), "n_unlimited": len(s.search(q, limit=None, **kw))})
+            # ... and of the same searches told not to use block qualities (optimize=False)
+            obs.append({"kind": "filteredlen", "path": "len(search(filter=%s mask=%s limit=%d optimize=False))" % (hasf, hasm, k),
+                        "hasfilt": hasf, "hasmask": hasm, "filt": afilt, "mask": amask, "k": k,
+                        "n": len(s.search(q, limit=k or None, optimize=False, **kw)),
+                        "n_unlimited": len(s.search(q, limit=None, optimize=False, **kw))})
             # ... and collapsed on top of that: the best document of each key among those the filter / mask let through
             cf = rng.choice(["tag", "num", "flag"])
 
